@@ -128,8 +128,12 @@ class Model:
         run([CLANG, '-O1', '-Xclang', '-disable-llvm-passes', '-g', '-w', '-emit-llvm', '-c'] + self.flags + list(extra) + [src, '-o', out])
 
     def _plain(self, bc, js):
-        o = bc + '.p.bc'
-        run([OPT, '-passes=function(mem2reg,early-cse<memssa>)', bc, '-o', o])
+        # pure accessors (small, loop-free, no stores / aborts / calls to anything but other accessors) are
+        # inlined even in the "plain" view, so that extracting or inlining such a helper changes no verdict
+        o1, o2, o = bc + '.m.bc', bc + '.a.bc', bc + '.p.bc'
+        run([OPT, '-passes=function(mem2reg)', bc, '-o', o1])
+        run([IRDUMP, '--mark-accessors', o1, o2])
+        run([OPT, '-passes=always-inline,function(mem2reg,early-cse<memssa>)', o2, '-o', o])
         with open(js, 'wb') as fh:
             fh.write(run([IRDUMP, o]))
         return ir.Module.load(js)
